@@ -2042,12 +2042,12 @@ parse_citation:
 			print_const("\\%");
 			break;
 
+		case RAW_FILTER_LEFT:
 		case TEXT_BRACE_LEFT:
 		case TEXT_BRACE_RIGHT:
 			print_const("\\");
 
 		case PAIR_RAW_FILTER:
-		case RAW_FILTER_LEFT:
 		case TEXT_NUMBER_POSS_LIST:
 		case TEXT_PERIOD:
 		case TEXT_PLAIN:
@@ -2390,6 +2390,10 @@ void mmd_export_token_latex_tt(DString * out, const char * source, token * t, sc
 				print_const("\\^{}");
 			}
 
+			break;
+
+		case RAW_FILTER_LEFT:
+			print_const("\\{=");
 			break;
 
 		case TEXT_BRACE_LEFT:
